@@ -3,6 +3,7 @@
 import glob, json, re
 rows = []
 tot = {'DETECTED': 0, 'UNDECIDED': 0, 'MISSED': 0}
+by_witness = 0
 for d in sorted(glob.glob('/verif/seeded/C*-*'), key=lambda p: (p.split('/')[-1].split('-')[0], int(p.split('-')[-1]))):
     m = json.load(open(d + '/meta.json'))
     if m.get('obsolete'):
@@ -12,6 +13,8 @@ for d in sorted(glob.glob('/verif/seeded/C*-*'), key=lambda p: (p.split('/')[-1]
     verdicts = [c.get('verdict') for c in ch.values()]
     overall = 'DETECTED' if 'DETECTED' in verdicts else ('UNDECIDED' if 'UNDECIDED' in verdicts else 'MISSED')
     tot[overall] += 1
+    if overall == 'DETECTED' and all(str(c.get('obligation', '')).startswith('witness::') for c in ch.values() if c.get('verdict') == 'DETECTED'):
+        by_witness += 1
     files = sorted(set(re.findall(r'^\+\+\+ b/(\S+)', open(d + '/patch.diff').read(), re.M)))
     det = ', '.join(p for p, c in ch.items() if c.get('verdict') == 'DETECTED')
     und = ', '.join(p for p, c in ch.items() if c.get('verdict') == 'UNDECIDED')
@@ -23,7 +26,7 @@ for d in sorted(glob.glob('/verif/seeded/C*-*'), key=lambda p: (p.split('/')[-1]
     summ = re.sub(r'\s+', ' ', str(m.get('summary', '')))[:170].replace('|', '/')
     rows.append(f"| {m['id']} | {', '.join(f.replace('src/', '') for f in files)} | {summ} | **{overall}**{' by ' + det if det else ''}{' (undecided: ' + und + ')' if und and overall != 'UNDECIDED' else ''} | {(ob or why).replace('|', '/')[:170]} |")
 table = ('| id | files | change (author\'s summary, shortened) | verdict | failed obligation / why undecided |\n|---|---|---|---|---|\n' + '\n'.join(rows)
-         + f"\n\nChanges marked obsolete no longer apply because the defect they varied was repaired in /repo. Totals over {sum(tot.values())} confirmed, still applicable changes: {tot['DETECTED']} detected (a named obligation fails, exit 1), "
+         + f"\n\nChanges marked obsolete no longer apply because the defect they varied was repaired in /repo. Totals over {sum(tot.values())} confirmed, still applicable changes: {tot['DETECTED']} detected (exit 1: {tot['DETECTED'] - by_witness} by a named proof obligation that fails; {by_witness} more, undecided for the verifier, by a witness input of §3.6 that fails on the patched library — obligation `witness::…`, the VIOLATION line carries the failing input), "
            f"{tot['UNDECIDED']} undecided (exit 2: the change restructures the code so that proof anchors / extraction no longer apply, "
            f"or uses a construct the verifier does not take), {tot['MISSED']} missed (exit 0).\n")
 p = '/verif/DESIGN.md'
@@ -31,4 +34,4 @@ s = open(p).read()
 a = s.index('<!-- SEEDED-TABLE-BEGIN -->') + len('<!-- SEEDED-TABLE-BEGIN -->')
 b = s.index('<!-- SEEDED-TABLE-END -->')
 open(p, 'w').write(s[:a] + '\n' + table + s[b:])
-print(tot)
+print(tot, 'by witness only:', by_witness)
